@@ -33,7 +33,7 @@ func Harness_C06_Close() {
 	vAssert("attached", a != nil && b != nil && c != nil)
 	b.send(&wamp.Register{Request: 1, Procedure: "b.proc"})
 	b.drain()
-	situation := vChoice("situation", 6)
+	situation := vChoice("situation", 7)
 	switch situation {
 	case 0: // idle sessions
 	case 1: // subscriptions and a registration
@@ -60,6 +60,18 @@ func Harness_C06_Close() {
 		b.send(&wamp.Goodbye{Reason: wamp.CloseRealm, Details: wamp.Dict{}})
 		b.drain()
 		a.drain()
+	case 6: // a finished progressive call invocation whose chunks carried a long timeout
+		a.send(&wamp.Call{Request: 3, Procedure: "b.proc", Options: wamp.Dict{"progress": true, "timeout": int64(5000)}})
+		a.send(&wamp.Call{Request: 3, Procedure: "b.proc", Options: wamp.Dict{"progress": true}})
+		a.send(&wamp.Call{Request: 3, Procedure: "b.proc", Options: wamp.Dict{}})
+		a.drain()
+		inv, n := vFindMsg[*wamp.Invocation](b.drain())
+		vAssert("chunks-invoked", n == 3)
+		if n > 0 {
+			b.send(&wamp.Yield{Request: inv.Request})
+		}
+		_, nres := vFindMsg[*wamp.Result](a.drain())
+		vAssert("progressive-call-finished", nres == 1)
 	}
 	t0 := vNow()
 	r.Close()
